@@ -431,6 +431,15 @@ def runFrame (c i pl : String) : String :=
   let (f1, b1) := f.toBytes
   let (_, b2) := f1.toBytes
   toHex b1 ++ " " ++ (if b1 == b2 && f1.data == f.data then "same" else "DIFF")
+/-- `frameseq|cls|id|<mode>:<hex>;…`: ONE frame object whose payload is replaced step by step (the mode says how the
+    harness does it on the real object: new bytearray or in place), serialised after every step -/
+def runFrameSeq (c i steps : String) : String :=
+  let f0 : Frame := { cls := c.toNat!, id := i.toNat! }
+  let (_, outs) := (steps.splitOn ";").foldl (fun (acc : Frame × List String) st =>
+    let pl := match st.splitOn ":" with | [_, h] => parseHex h | _ => []
+    let (f1, b) := ({ acc.1 with data := pl } : Frame).toBytes
+    (f1, acc.2 ++ [toHex b] ++ (if f1.data == pl then [] else ["DATA-CHANGED"]))) (f0, [])
+  " ".intercalate outs
 def runFrameGen (c i len seed mode : String) : String :=
   let f : Frame := { cls := c.toNat!, id := i.toNat!, data := lcgPayload len.toNat! seed.toNat! mode.toNat! }
   let (f1, b1) := f.toBytes
@@ -498,6 +507,7 @@ def handle (line : String) : String :=
   | ["str", c, pl, e] => runStr c pl e
   | ["frame", c, i, pl] => runFrame c i pl
   | ["framegen", c, i, l, s, m] => runFrameGen c i l s m
+  | ["frameseq", c, i, st] => runFrameSeq c i st
   | ["ck", a, b] => runCk a b
   | ["ckrow", a] => runCkRow a
   | ["ckm", a, b] => runCkM a b
